@@ -240,10 +240,40 @@ impl C08 {
                 };
                 Case { w, h, bpp, compress: false, data: vec![0xA5; len], block }
             }
+            // uncompressed, one side near 2^15 / 2^16: (dimension pair, depth, data length around the row size)
+            "rawwide" => {
+                let k = i % 10;
+                i /= 10;
+                let b = i % BPPS.len() as u64;
+                i /= BPPS.len() as u64;
+                let (w, h) = WIDE_DIMS[i as usize];
+                let bpp = BPPS[b as usize];
+                let bytes_pp = ((bpp as usize).min(64) + 7) / 8;
+                let row = w as usize * bytes_pp;
+                let padded = (row + 3) & !3;
+                let len = match k {
+                    0 => 0,
+                    1 => 1,
+                    2 => 4,
+                    3 => row.saturating_sub(1),
+                    4 => row,
+                    5 => padded,
+                    6 => padded + 1,
+                    7 => (padded * h as usize).saturating_sub(1),
+                    8 => padded * h as usize,
+                    _ => row * h as usize,
+                };
+                Case { w, h, bpp, compress: false, data: vec![0x5A; len], block }
+            }
             _ => unreachable!(),
         }
     }
 }
+
+const WIDE_DIMS: [(u16, u16); 22] = [
+    (16383, 1), (16384, 2), (32766, 1), (32766, 2), (32767, 1), (32767, 2), (32767, 3), (32768, 1), (32768, 2), (40000, 1), (40000, 2), (65534, 1), (65535, 1), (65535, 2), (65535, 3),
+    (1, 32767), (1, 32768), (1, 65535), (2, 32768), (3, 65535), (0, 65535), (65535, 0),
+];
 
 impl Prop for C08 {
     fn id(&self) -> &'static str {
@@ -276,6 +306,7 @@ impl Prop for C08 {
             ("planar", PLANAR_DIMS.len() as u64 * 3 * np.pow(pd)),
             ("planarhdr", PLANAR_DIMS.len() as u64 * 256),
             ("rawlen", nd * BPPS.len() as u64 * 6),
+            ("rawwide", WIDE_DIMS.len() as u64 * BPPS.len() as u64 * 10),
         ];
         Ok(())
     }
@@ -287,7 +318,7 @@ impl Prop for C08 {
         json!({"idx": idx, "block": c.block, "width": c.w, "height": c.h, "bpp": c.bpp, "compress": c.compress, "data_hex": hex(&c.data[..c.data.len().min(64)]), "data_len": c.data.len()})
     }
     fn rule(&self) -> String {
-        "cases = (width, height, bpp, compression flag, data). Blocks: [short1] 30 dims x 9 depths x 2 flags x all strings of length <=1; [short23] compressed 16/32 bpp x 30 dims x all 65536 two-byte strings (in thorough also all 2^24 three-byte strings for the 25 dimension pairs up to 4x4); [orders] grammar-aware sequences of <=2 (<=3 thorough) interleaved-RLE orders from an alphabet of every order kind x form x boundary run length incl. undefined codes and truncated headers; [planar] header x sequences of <=3 (<=4) planar control segments; [planarhdr] all 256 format header bytes; [rawlen] uncompressed data lengths {0, exact-1, exact, exact+1, 2*exact+3, exact/2}. Non-trivial: the decoder consumed at least one complete order/segment (data non-empty and supported depth).".into()
+        "cases = (width, height, bpp, compression flag, data). Blocks: [short1] 30 dims x 9 depths x 2 flags x all strings of length <=1; [short23] compressed 16/32 bpp x 30 dims x all 65536 two-byte strings (in thorough also all 2^24 three-byte strings for the 25 dimension pairs up to 4x4); [orders] grammar-aware sequences of <=2 (<=3 thorough) interleaved-RLE orders from an alphabet of every order kind x form x boundary run length incl. undefined codes and truncated headers; [planar] header x sequences of <=3 (<=4) planar control segments; [planarhdr] all 256 format header bytes; [rawlen] uncompressed data lengths {0, exact-1, exact, exact+1, 2*exact+3, exact/2}; [rawwide] uncompressed images with one side of 16383..65535 (and the other 0..3 / vice versa) x depths x data lengths {0, 1, 4, row-1, row, padded row, +1, whole-1, whole, unpadded whole}. Non-trivial: the decoder consumed at least one complete order/segment (data non-empty and supported depth).".into()
     }
     fn assumptions(&self) -> Vec<String> {
         vec!["allocation bound checked: peak <= 4*(w*h*4) + 8*len(data) + 64 KiB".into(), "dimensions above 256x256 are not enumerated".into()]
